@@ -5,6 +5,7 @@ package stream
 import (
 	"container/list"
 
+	"github.com/rulego/streamsql/condition"
 	"github.com/rulego/streamsql/functions"
 	"github.com/rulego/streamsql/internal/zzverif"
 	"github.com/rulego/streamsql/types"
@@ -154,4 +155,56 @@ func VerifC14PartitionKey() {
 	ka, kb := fe.partitionKey(a), fe.partitionKey(b)
 	zzverif.ObserveB("same", ka == kb)
 	zzverif.Assert((ka == kb) == equal, "partition-key-merges-exactly-equal-tuples")
+}
+
+// VerifC14When: f(...) OVER (PARTITION BY p WHEN g > 0): a row that passes WHEN advances the state of
+// its partition and yields the function's value; a row that fails WHEN leaves the state alone and
+// yields the result of the most recent row of the same partition that passed (NULL if none) - also
+// when that result was NULL after an earlier non-NULL one (changed_col returns NULL on a repeat).
+func VerifC14When() {
+	fnames := []string{"changed_col", "lag", "acc_sum"}
+	exprs := []string{"changed_col(false, v)", "lag(v, 1)", "acc_sum(v)"}
+	argl := [][]string{{"false", "v"}, {"v", "1"}, {"v"}}
+	f := zzverif.Param("fn", 0)
+	m := zzverif.Param("rows", 4)
+	nparts := zzverif.Param("parts", 1)
+	af := types.AnalyticField{FuncName: fnames[f], Args: argl[f], Expression: exprs[f], Alias: "a", Over: &types.OverSpec{PartitionBy: []string{"p"}, When: "g > 0"}}
+	fe := verifFieldEngine(af, 10)
+	cond, err := condition.NewExprCondition("g > 0")
+	if err != nil {
+		panic(err)
+	}
+	fe.whenCond = cond
+	s := &Stream{}
+	fn, _ := functions.Get(fnames[f])
+	refs := make([]functions.AnalyticState, nparts)
+	last := make([]any, nparts)
+	for i := range refs {
+		refs[i] = fn.(functions.StatefulAnalytic).NewState()
+	}
+	names := []string{"a", "b"}
+	for i := 0; i < m; i++ {
+		p := 0
+		if nparts > 1 {
+			p = zzverif.Choose("part", nparts)
+		}
+		// small value range so that repeats (changed_col -> NULL) are frequent
+		v := int(zzverif.NondetU64("v", 1))
+		g := int(zzverif.NondetU64("g", 1)) // 0 fails WHEN, 1 passes
+		row := map[string]any{"p": names[p], "v": v, "g": g}
+		got := fe.evaluate(s, row)
+		if g > 0 {
+			var args []any
+			switch f {
+			case 0:
+				args = []any{false, v}
+			case 1:
+				args = []any{v, 1}
+			default:
+				args = []any{v}
+			}
+			last[p] = refs[p].Apply(args)
+		}
+		zzverif.Assert(verifSameAnyS(got, last[p]), "when-gated-analytic-equals-last-passing-result")
+	}
 }
